@@ -26,10 +26,17 @@ for d in dirs:
     prop = meta.get("property") or name.split("-")[0]
     extra = meta.get("also_check", [])
     rec["property"] = prop
-    subprocess.run(["git", "-C", wt, "checkout", "-q", "--", "."]); subprocess.run(["git", "-C", wt, "clean", "-fdq"])
-    p = subprocess.run(["git", "-C", wt, "apply", "--3way", d + "/patch.diff"], capture_output=True, text=True)
+    subprocess.run(["git", "-C", wt, "reset", "-q", "--hard", "HEAD"]); subprocess.run(["git", "-C", wt, "clean", "-fdq"])
+    p = subprocess.run(["git", "-C", wt, "apply", d + "/patch.diff"], capture_output=True, text=True)
     if p.returncode != 0:
-        p = subprocess.run(["git", "-C", wt, "apply", d + "/patch.diff"], capture_output=True, text=True)
+        # the tree moved on since the patch was written: try with fuzz
+        subprocess.run(["git", "-C", wt, "reset", "-q", "--hard", "HEAD"]); subprocess.run(["git", "-C", wt, "clean", "-fdq"])
+        p2 = subprocess.run(["patch", "-p1", "-F3", "--no-backup-if-mismatch", "-i", d + "/patch.diff"], cwd=wt, capture_output=True, text=True)
+        if p2.returncode == 0:
+            p = p2
+            rec["applied_with_fuzz"] = True
+        else:
+            subprocess.run(["git", "-C", wt, "reset", "-q", "--hard", "HEAD"]); subprocess.run(["git", "-C", wt, "clean", "-fdq"])
     if p.returncode != 0:
         rec["applies"] = False
         rec["apply_err"] = p.stderr[-400:]
@@ -51,6 +58,6 @@ for d in dirs:
         why = [l for l in out.splitlines() if "violation:" in l][:3]
         rec["checks"][pid] = {"exit": rc, "violation_lines": vio[:3], "what": why, "no_input": any("no-failing-input-found" in l for l in vio),
                               "wall_s": round(time.time() - t0, 1), "tail": out[-600:] if rc not in (0, 1) else ""}
-    subprocess.run(["git", "-C", wt, "checkout", "-q", "--", "."]); subprocess.run(["git", "-C", wt, "clean", "-fdq"])
+    subprocess.run(["git", "-C", wt, "reset", "-q", "--hard", "HEAD"]); subprocess.run(["git", "-C", wt, "clean", "-fdq"])
     open(outfile, "a").write(json.dumps(rec) + "\n")
 print("done", len(dirs))
